@@ -22,7 +22,7 @@ Fragment (anything else makes `lower` answer `none`):
   stmt    s ::= var x T | var x T = e | x := e | l = e
               | x, .., y := f(e, .., e) | l, .., l = f(e, .., e)
               | if e { s* } [else { s* }] | for i := lo; i <cmp> hi; i += st { s* }
-              | return e, .., e
+              | return e, .., e | return f(e, .., e)   (all results of f at once)
   func      ::= func(params T..) (results) { s* }   every path ends in a `return`;
               named results are `var r T` at the start of the body (harness
               desugaring, /repo 4accfb7: zero-initialised)
@@ -79,9 +79,9 @@ from the fragment by decidable conditions (ids in /verif/known_findings.json):
     function all names declared by parameters, `var`, `:=` are pairwise
     distinct, a loop variable is none of them and not the variable of an
     enclosing loop, no `:=` inside a `for` body                 (`scopeOk`)
-Not in the fragment (no deviation known, just not modelled): `return f(..)`
-and `g(f(..))` with a call delivering SEVERAL values at once, constant
-arguments of calls, constant-only expressions (folding is C12's subject).
+Not in the fragment (no deviation known, just not modelled): `g(f(..))` with a
+call delivering SEVERAL arguments at once, constant arguments of calls,
+constant-only expressions (folding is C12's subject).
 -/
 import MpcVerif.Model.MpclSsa
 
@@ -438,6 +438,19 @@ def bindArgs : List (String × Ty) → List (SArg × Ty) → Nat → Option (NSc
     else none
   | _, _, _ => none
 
+/-- `return f(..)`: the single call that delivers all results. -/
+def retCallOf : List Expr → Option (Nat × List Expr)
+  | [.call g args] => some (g, args)
+  | _ => none
+
+/-- Return.SSA for the results of a call: every result is moved into a fresh
+version of the result variable. -/
+def retMovs : List (Nat × Ty) → Nat → List (Nat × Ty) × List SInstr × Nat
+  | [], next => ([], [], next)
+  | (id, t) :: rs, next =>
+    let r := retMovs rs (next + 1)
+    ((next, t) :: r.1, movI (.var id t.bits) next t.bits :: r.2.1, r.2.2)
+
 mutual
 
 /-- Model of Binary.SSA / Unary.SSA / Call.cast / VariableRef.SSA / BasicLit.SSA /
@@ -641,9 +654,18 @@ def lowerS (P : Prog) : Nat → NEnv → Nat → Stmt → Option LRes
     | _ => none
   | f + 1, nm, next, .for i lo c hi st body => lowerFor P f i lo c hi st body nm next
   | f + 1, nm, next, .ret es =>
-    match lowerRet P f nm es next with
-    | some (rs, code, n1) => some ⟨none, .ret rs, code, n1⟩
-    | none => none
+    match retCallOf es with
+    | some (g, args) =>
+      -- `return f(..)`: one or several results at once
+      match lowerCall P f nm g args next with
+      | some (rs, cc, n1) =>
+        let m := retMovs rs n1
+        some ⟨none, .ret m.1, cc ++ m.2.1, m.2.2⟩
+      | none => none
+    | none =>
+      match lowerRet P f nm es next with
+      | some (rs, code, n1) => some ⟨none, .ret rs, code, n1⟩
+      | none => none
   | _ + 1, _, _, _ => none
 
 /-- Model of List.SSA: statements after a block that returned on every path
